@@ -1332,6 +1332,48 @@ def archive_item():
             % (decision, lst(before), lst(in_try), lst(on_error), lst(fin)))
 
 
+def deps_paths_item():
+    """TaskType.get_deps_output_paths: the list handed to COND_DEPS -- one loop over `self.deps` in order, the dependency's
+    output path looked up through the task index, skipped only when it is None, appended otherwise (no other filter, no
+    de-duplication, no sorting).  gen_deps_paths_step: 0 = skipped, 1 = appended at the end."""
+    f = _find_method("conductor/task_types/base.py", "TaskType", "get_deps_output_paths")
+    body = _body_without_docstring(f)
+    if len(body) != 3:
+        raise Unsupported("get_deps_output_paths has %d statements" % len(body))
+    init, loop, ret = body
+    if not (isinstance(init, ast.Assign) and ast.unparse(init) == "deps_output_paths = []"):
+        raise Unsupported("get_deps_output_paths does not start from an empty list: %s" % ast.unparse(init))
+    if not (isinstance(ret, ast.Return) and ast.unparse(ret.value) == "deps_output_paths"):
+        raise Unsupported("get_deps_output_paths returns %s" % ast.unparse(ret))
+    if not (isinstance(loop, ast.For) and ast.unparse(loop.target) == "dep_identifier" and ast.unparse(loop.iter) == "self.deps" and not loop.orelse):
+        raise Unsupported("get_deps_output_paths does not loop over self.deps")
+    lb = list(loop.body)
+    if not lb or ast.unparse(lb[0]) != "path = ctx.task_index.get_task(dep_identifier).get_output_path(ctx)":
+        raise Unsupported("the dependency's path is not get_task(dep).get_output_path(ctx)")
+
+    def block(stmts):
+        if not stmts:
+            return "0%N"       # the iteration ends without appending
+        st, rest = stmts[0], stmts[1:]
+        src = ast.unparse(st)
+        if isinstance(st, ast.Continue):
+            return "0%N"
+        if src == "deps_output_paths.append(path)":
+            if rest:
+                raise Unsupported("statements after the append: %s" % ast.unparse(rest[0]))
+            return "1%N"
+        if isinstance(st, ast.If):
+            tests = {"path is None": "path_none", "path is not None": "(negb path_none)"}
+            t = ast.unparse(st.test)
+            if t not in tests:
+                raise Unsupported("get_deps_output_paths tests %s" % t)
+            return "(if %s then %s else %s)" % (tests[t], block(list(st.body) + rest), block(list(st.orelse) + rest))
+        raise Unsupported("get_deps_output_paths: statement outside the supported fragment: %s" % src)
+
+    return ("(* conductor/task_types/base.py TaskType.get_deps_output_paths: per dependency of self.deps, in order *)\n"
+            "Definition gen_deps_paths_step (path_none : bool) : N := %s.\n" % block(lb[1:]))
+
+
 def version_item():
     """VersionIndex.generate_new_output_version: the timestamp as a function of the clock and the last timestamp"""
     f = _find_method("conductor/execution/version_index.py", "VersionIndex", "generate_new_output_version")
@@ -1396,7 +1438,7 @@ def generate():
         failures["task_type_table"] = "%s: %s" % (type(ex).__name__, ex)
         parts.append("(* task_type_table: NOT TRANSLATED: %s *)\n" % str(ex).replace("*)", "* )"))
     for coqname, fn in (("gen_gate_open", gate_item), ("gen_new_version", version_item), ("gen_loop_goes_on", loop_item), ("gen_wants_slot", slot_item),
-                        ("gen_prune", prune_item), ("gen_should_run", should_run_item), ("gen_sel_top", select_item), ("gen_validate_args", validate_args_item), ("gen_finish", finish_item), ("gen_record_type", record_type_item), ("gen_tee_iteration", tee_item), ("gen_env_overrides", spawn_item), ("gen_launch_block", abort_item), ("gen_combine_decision", combine_item), ("gen_gc_decision", gc_item), ("gen_restore_before_loop", restore_item), ("gen_archive_output_decision", archive_item)):
+                        ("gen_prune", prune_item), ("gen_should_run", should_run_item), ("gen_sel_top", select_item), ("gen_validate_args", validate_args_item), ("gen_finish", finish_item), ("gen_record_type", record_type_item), ("gen_tee_iteration", tee_item), ("gen_env_overrides", spawn_item), ("gen_launch_block", abort_item), ("gen_combine_decision", combine_item), ("gen_gc_decision", gc_item), ("gen_restore_before_loop", restore_item), ("gen_archive_output_decision", archive_item), ("gen_deps_paths_step", deps_paths_item)):
         try:
             parts.append(fn())
         except Exception as ex:  # pylint: disable=broad-except
